@@ -14,7 +14,9 @@ from harness import core, world as W
 
 BAD_RULES = [[], ["MATCH"], ["CREATE"], ["FOO", "x"], ["CREATE", "a", "b"], ["MATCH", "x", "WITH", "PRODUCTS", "FROM"],
              ["MATCH", "x", "WITH", "NOTHING", "FROM", "s"], ["MATCH", "x", "IN", "a", "WITH", "PRODUCTS", "IN", "b", "FRM", "s"],
-             ["ALLOW", 7], "ALLOW *", None, ["MATCH", "x", "FROM", "s"], ["İN", "x"]]
+             ["ALLOW", 7], "ALLOW *", None, ["MATCH", "x", "FROM", "s"], ["İN", "x"],
+             # something that is not a list but can be iterated (an object whose member names spell a rule, a string)
+             {"DISALLOW": True, "*": True}, {"ALLOW": 1, "x": 2}, {}, "", 7, True]
 GOOD_RULES = [["ALLOW", "*"], ["MATCH", "*", "WITH", "PRODUCTS", "FROM", "s0"], ["require", "MATCH"], ["DISALLOW", "*"],
               ["MATCH", "a", "IN", "b", "WITH", "MATERIALS", "IN", "c", "FROM", "d"], ["create", ""]]
 
